@@ -312,6 +312,84 @@ func runC18(w *World, r *Report) {
 	r.Extra["tracked_fields_accessed"] = nFields
 	r.Extra["fields_written_by_mix"] = nWritten
 
+	// a lock protects a slice or map only while every reference to its storage stays inside the critical sections:
+	// a method that hands the field's value out (return b.members, or a reslice of it) lets the caller read the backing
+	// array while the next locked writer overwrites it
+	r.rule("guarded-storage-stays-inside", "no function returns (a reslice of) a written slice / map field of a tracked struct: callers get copies or elements, never the shared backing store", 0)
+	nRef := 0
+	for _, fn := range fnsSorted {
+		for _, ret := range returnsOf(fn) {
+			for _, res := range ret.Results {
+				switch res.Type().Underlying().(type) {
+				case *types.Slice, *types.Map:
+				default:
+					continue
+				}
+				seenV := map[ssa.Value]bool{}
+				var chase func(v ssa.Value) string
+				chase = func(v ssa.Value) string {
+					if v == nil || seenV[v] {
+						return ""
+					}
+					seenV[v] = true
+					switch x := v.(type) {
+					case *ssa.Slice:
+						return chase(x.X)
+					case *ssa.ChangeType:
+						return chase(x.X)
+					case *ssa.Phi:
+						for _, e := range x.Edges {
+							if k := chase(e); k != "" {
+								return k
+							}
+						}
+					case *ssa.UnOp:
+						if x.Op != token.MUL {
+							return ""
+						}
+						if fa, ok := x.X.(*ssa.FieldAddr); ok {
+							tn := namedOf(fa.X.Type())
+							if c18Tracked[tn] {
+								if _, fresh := strip(fa.X).(*ssa.Alloc); !fresh {
+									return tn + "." + fieldName(fa.X.Type(), fa.Field)
+								}
+							}
+							return ""
+						}
+						if al, ok := x.X.(*ssa.Alloc); ok {
+							for _, sv := range reachingStores(x).vals {
+								if k := chase(sv); k != "" {
+									return k
+								}
+							}
+							_ = al
+						}
+					}
+					return ""
+				}
+				k := chase(res)
+				if k == "" {
+					continue
+				}
+				written := false
+				for _, a := range accs[k] {
+					if a.write {
+						written = true
+					}
+				}
+				if !written {
+					continue
+				}
+				nRef++
+				r.bad("guarded-storage-stays-inside", shortFn(fn)+"/returns "+k, lineOf(w, ret), "the shared backing store of "+k+" is not handed out of its critical sections",
+					"the returned value aliases "+k+", which other operations write under a lock the caller does not hold")
+			}
+		}
+	}
+	if nRef == 0 {
+		r.ok("guarded-storage-stays-inside", "none", "-", "no function returns the storage of a written slice / map field")
+	}
+
 	// goroutine-captured variables
 	r.rule("go-closure-captures", "a variable captured by reference by a goroutine started from an operation is not stored to by the spawner after the go statement nor by the goroutine", 5)
 	for _, fn := range fnsSorted {
